@@ -13,3 +13,14 @@ META["C11"] = {
     "note": "trusts the hook VerifLen/VerifOnEvicted (thin wrappers over groupcache lru Len/OnEvicted) and MemHash for shard attribution",
     "technique": "property-based testing: model-based stateful test (rapid) + exhaustive enumeration of sizes, LRU reference model",
 }
+
+_SIMNOTE = "trusts go1.26.8 testing/synctest (fake clock, quiescence), the hooks (yield points, handler accessor, store registry) and the reference automaton written from the property statements"
+META["C01"] = {"text": "Schedule/clock exploration: thousands of generated interleavings of requests, completions, expiry, parked waiters and purges are run through pike's real middleware chain in a synctest bubble and checked step by step against a per-key reference automaton (one in-flight fetch, waiters answered from it, one upstream request per lifetime). Exploration only: interleavings inside critical sections are not enumerated.", "design_ref": "DESIGN.md section 5 C01, appendix A", "note": _SIMNOTE, "technique": "property-based testing: model-based stateful schedule exploration (rapid) in a deterministic simulation (synctest), reference automaton"}
+META["C02"] = {"text": "Same engine with fault outcomes (error, timeout, body abort = panic, uncacheable): after every op no waiter of an ended fetch may remain blocked, the bubble's deadlock detector catches lost wake-ups exactly, every request must finish after the drain.", "design_ref": "DESIGN.md section 5 C02", "note": _SIMNOTE, "technique": "property-based testing: generated schedules x fault sequences, quiescence invariant + deadlock detection"}
+META["C03"] = {"text": "Generated header language against a reference cacheability predicate; the second identical request tells whether the response was stored; the upstream log tells whether labels are truthful.", "design_ref": "DESIGN.md section 5 C03", "note": _SIMNOTE, "technique": "property-based testing: grammar-based input generation, reference predicate (differential)"}
+META["C04"] = {"text": "Timed histories on a virtual clock with millisecond control around every expiry boundary, checked against an interval automaton with one-second tolerance.", "design_ref": "DESIGN.md section 5 C04", "note": _SIMNOTE, "technique": "property-based testing: generated timed histories on a virtual clock, interval reference model"}
+META["C06"] = {"text": "Adversarial key sets on tiny caches (forced shard collisions and evictions) with self-identifying upstream bodies: any cross-key delivery is visible in the body.", "design_ref": "DESIGN.md section 5 C06", "note": _SIMNOTE, "technique": "property-based testing: adversarial key generation, self-identifying responses"}
+META["C07"] = {"text": "Histories around the hit-for-pass period with bursts left pending together; automaton with one-second tolerance.", "design_ref": "DESIGN.md section 5 C07", "note": _SIMNOTE, "technique": "property-based testing: model-based timed histories (rapid + synctest)"}
+META["C10"] = {"text": "Per-call store fault scripts (errors, missing, truncated/garbled records) injected under generated histories; the store must be invisible to clients.", "design_ref": "DESIGN.md section 5 C10", "note": _SIMNOTE + "; fault store registered through the hook and reached via the real store.NewStore", "technique": "property-based testing with fault injection: generated fault sequences, reference automaton"}
+META["C18"] = {"text": "Histories of requests and purges (named/unnamed/absent) racing fetches on two caches with a store, checked against the automaton and by inspecting the store.", "design_ref": "DESIGN.md section 5 C18", "note": _SIMNOTE, "technique": "property-based testing: model-based histories (rapid + synctest), store inspection"}
+HOOK_COMMITS[:] = ["e850d8f"]
